@@ -163,7 +163,7 @@ Proof. intros Hm Hlen. induction fuel as [|fuel IH]; intros remaining flags off 
     assert (Hbody : slice msg (len - remaining) remaining = rest).
     { unfold slice. fold rest. apply firstn_all2. unfold blen in Hrest. lia. }
     rewrite Hbody. eexists [_]. split; [reflexivity|].
-    destruct (data_frame_ok l off (remaining + 32) tid (Z.lor flags F_END) (rv off (remaining + 32)) rest) as [Hok Hnp]; [lia|lia|].
+    destruct (data_frame_ok l off (remaining + 32) tid (Z.lor flags F_END) (rv off (remaining + 32) rest) rest) as [Hok Hnp]; [lia|lia|].
     split; [constructor; [exact Hok|constructor]|]. split; [constructor; [exact Hnp|constructor]|].
     split; [cbn [span_sum]; unfold span; rewrite FA_32; cbn [f_len data_frame]; lia|].
     rewrite chunks_of_small by lia. reflexivity.
@@ -175,7 +175,7 @@ Proof. intros Hm Hlen. induction fuel as [|fuel IH]; intros remaining flags off 
     destruct (IH (remaining - mpl) 0 (off + align (mpl + 32) 32)) as (fs & Hfs & Hok & Hnp & Hsp & Hfb); [lia|rewrite Hd; lia|].
     assert (Hbody : slice msg (len - remaining) mpl = firstn (Z.to_nat mpl) rest) by reflexivity.
     rewrite Hbody, Hfs.
-    destruct (data_frame_ok l off (mpl + 32) tid flags (rv off (mpl + 32)) (firstn (Z.to_nat mpl) rest)) as [Hok1 Hnp1]; [lia| |].
+    destruct (data_frame_ok l off (mpl + 32) tid flags (rv off (mpl + 32) (firstn (Z.to_nat mpl) rest)) (firstn (Z.to_nat mpl) rest)) as [Hok1 Hnp1]; [lia| |].
     { unfold blen. rewrite firstn_length. unfold blen in Hrest. lia. }
     eexists (_ :: fs). split; [reflexivity|].
     split; [constructor; assumption|]. split; [constructor; assumption|].
@@ -213,7 +213,7 @@ Proof. intros Hm Hm32 Hlen.
 
 (* ---- exact results of the append flavours when the message fits ---- *)
 Section SharedExact.
-Variables (m : mode) (rv : Z -> Z -> Z) (l : log) (idx tid off : Z).
+Variables (m : mode) (rv : Z -> Z -> list Z -> Z) (l : log) (idx tid off : Z).
 Hypothesis Hl : legal l.
 Hypothesis Hi : 0 <= idx < 3.
 Hypothesis Ht : in_i32 tid = true.
@@ -225,7 +225,7 @@ Local Notation l1 req := (set_tail l idx (tid * two32 + (off + req))).
 Lemma ta_unfrag_exact msg : zlen msg <= max_payload_length l -> off + align (zlen msg + 32) 32 <= l_tlen l ->
   ta_append_unfragmented m rv l idx msg tid =
   Ok (mkAppended (set_part (l1 (align (zlen msg + 32) 32)) idx
-                    (term_put (part l idx) off [Committed (data_frame l off (zlen msg + 32) tid F_UNFRAG T_DATA (rv off (zlen msg + 32)) msg)]))
+                    (term_put (part l idx) off [Committed (data_frame l off (zlen msg + 32) tid F_UNFRAG T_DATA (rv off (zlen msg + 32) msg) msg)]))
                  (off + align (zlen msg + 32) 32) None).
 Proof. intros Hlen Hfit. pose proof (zlen_nonneg msg) as H0.
   pose proof (legal_mpl l Hl) as (Hm1 & Hm2 & Hm3 & Hm4). pose proof (legal_tlen l Hl) as [Htl _].
@@ -271,7 +271,7 @@ Proof. intros Hlen Hfit.
 End SharedExact.
 
 Section ExclExact.
-Variables (m : mode) (rv : Z -> Z -> Z) (l : log) (idx tid off : Z).
+Variables (m : mode) (rv : Z -> Z -> list Z -> Z) (l : log) (idx tid off : Z).
 Hypothesis Hl : legal l.
 Hypothesis Ho : 0 <= off <= l_tlen l.
 
@@ -280,7 +280,7 @@ Local Notation l1 req := (put_raw_tail l idx tid (off + req)).
 Lemma eta_unfrag_exact msg : zlen msg <= max_payload_length l -> off + align (zlen msg + 32) 32 <= l_tlen l ->
   eta_append_unfragmented m rv l idx tid off msg =
   Ok (mkAppended (set_part (l1 (align (zlen msg + 32) 32)) idx
-                    (term_put (part l idx) off [Committed (data_frame l off (zlen msg + 32) tid F_UNFRAG T_DATA (rv off (zlen msg + 32)) msg)]))
+                    (term_put (part l idx) off [Committed (data_frame l off (zlen msg + 32) tid F_UNFRAG T_DATA (rv off (zlen msg + 32) msg) msg)]))
                  (off + align (zlen msg + 32) 32) None).
 Proof. intros Hlen Hfit. pose proof (zlen_nonneg msg) as H0.
   pose proof (legal_mpl l Hl) as (Hm1 & Hm2 & Hm3 & Hm4). pose proof (legal_tlen l Hl) as [Htl _].
